@@ -148,38 +148,108 @@ def aggregate(ctx, chk):
     else:
         chk.hold("R16.6", "no-input-mutation", "in-place updates only touch fresh copies of dyp[..., 0/1]")
     v = o.value
-    if not (isinstance(v, App) and v.fn == "stack" and v.kwd("axis") == Const(-1) and isinstance(v.args[0], Tup) and len(v.args[0].items) == 2):
-        chk.violation("R16.7", q, "result-shape", show(v, 160), "stack([lower, upper], axis=-1)  (shape (n, 2))", ctx.where(q))
+    cols = _band_columns(v, DY)
+    if cols is None:
+        chk.unknown("R16.7", "_aggregate_rectangles result is neither stack([lower, upper], axis=-1) nor an (n, 2) buffer filled column by column: %s" % show(v, 200))
         return
-    chk.hold("R16.7", "aggregate-shape", "ci = stack([lower, upper], axis=-1)")
+    if isinstance(cols, str):
+        chk.violation("R16.7", q, "result-shape", cols + ": " + show(v, 160), "stack([lower, upper], axis=-1)  (shape (n, 2))", ctx.where(q))
+        return
+    chk.hold("R16.7", "aggregate-shape", "ci[..., 0] = lower, ci[..., 1] = upper (shape (n, 2))")
     full = App("slice", (Const(None), Const(None), Const(None)))
-    for part, col, red, comb, nm in ((v.args[0].items[0], 0, "amin", "min", "lower"), (v.args[0].items[1], 1, "amax", "max", "upper")):
-        t = part
-        while isinstance(t, App) and t.fn == "after_loop":
-            t = t.args[0]
-        if not (isinstance(t, App) and t.fn == "store"):
-            chk.unknown("R16.6", "%s envelope not a per-point update: %s" % (nm, show(t, 160)))
+    for (init_ok, upd), col, red, comb, nm in ((cols[0], 0, "amin", "min", "lower"), (cols[1], 1, "amax", "max", "upper")):
+        if upd is None:
+            chk.unknown("R16.6", "%s envelope not a per-point update" % nm)
             continue
-        base, j, val = t.args
+        j, val = upd
         if not (isinstance(j, Sym) and "loopvar" in j.tags):
             chk.unknown("R16.6", "%s envelope is not written point by point (index %s): the vectorised form is outside the rule's vocabulary" % (nm, show(j, 60)))
             continue
         init = App("getitem", (DY, Tup([Const(Ellipsis), Const(col)])))
         own = App("getitem", (App("fresh", (init,)), j))
+        # the point's own limit may be read through any wrapper of the initial column (a fresh copy, the loop-carried value, the buffer column)
+        owns = {}
+
+        def note(t, init=init, j=j, owns=owns):
+            if isinstance(t, App) and t.fn == "getitem" and len(t.args) == 2 and t.args[1] == j and _unwrap(t.args[0]) == init:
+                owns[t] = own
+        from ..terms import walk
+        walk(val, note)
+        val = subst(val, owns) if owns else val
         xj = App("getitem", (X, j))
         inside = conj([cmp0("le", to_poly(sub(App("getitem", (DX, Tup([full, Const(0)]))), xj))), cmp0("le", to_poly(sub(xj, App("getitem", (DX, Tup([full, Const(1)]))))))])
         rect = App(red, (App("getitem", (DY, Tup([inside, Const(col)]))),), [("initial", own)])
         want = mk_app(comb, [own, rect])
-        base_ok = isinstance(base, App) and base.fn == "carried" and base.args[0] == App("fresh", (init,))
-        if same(val, want) and base_ok:
+        if same(val, want) and init_ok:
             chk.hold("R16.6", nm + "-envelope", "%s[j] = %s(own, %s over rectangles with dxp[:,0] <= x[j] <= dxp[:,1])" % (nm, comb, comb))
         else:
             # localise
             why = []
+            if not init_ok:
+                why.append("the column does not start as a copy of dyp[..., %d]" % col)
             conds = [a for a in atoms_of(val) if isinstance(a, App) and a.fn == "getitem" and isinstance(a.args[1], Tup) and a.args[0] == DY]
             if conds and conds[0].args[1].items[0] != inside:
                 why.append("inside-test %s is not the closed interval test %s" % (show(conds[0].args[1].items[0], 160), show(inside, 160)))
             chk.violation("R16.6", q, nm + "-envelope", "%s   %s" % (show(val, 300), "; ".join(why)), show(want, 300), ctx.where(q))
+
+
+def _unwrap(t):
+    while isinstance(t, App) and t.fn in ("fresh", "carried", "after_loop") and t.args:
+        t = t.args[0]
+    return t
+
+
+def _band_columns(v, DY):
+    """The two columns of the returned band as ((initial column is a copy of dyp[..., c], (loop index, written value) | None), ...);
+    a string when the result has another layout; None when the form is not understood.
+    Understood: stack([lower, upper], axis=-1) of two per-point updated copies, and an (n, 2) buffer written column by column
+    (whole columns through `[..., c]`, single points through a view of the column)."""
+    def init_of(c):
+        return App("getitem", (DY, Tup([Const(Ellipsis), Const(c)])))
+    if isinstance(v, App) and v.fn == "stack":
+        if not (v.kwd("axis") == Const(-1) and isinstance(v.args[0], Tup) and len(v.args[0].items) == 2):
+            return "stacked along another axis / other than two columns"
+        out = []
+        for c, part in enumerate(v.args[0].items):
+            t = part
+            while isinstance(t, App) and t.fn == "after_loop":
+                t = t.args[0]
+            if not (isinstance(t, App) and t.fn == "store"):
+                out.append((False, None))
+                continue
+            base, j, val = t.args
+            ok = isinstance(base, App) and base.fn == "carried" and base.args[0] == App("fresh", (init_of(c),))
+            out.append((ok, (j, val)))
+        return tuple(out)
+    # buffer form
+    chain = []
+    t = v
+    while isinstance(t, App) and t.fn in ("store", "after_loop", "carried"):
+        if t.fn == "store":
+            chain.append((t.args[1], t.args[2]))
+        t = t.args[0]
+    if not (isinstance(t, App) and t.fn in ("empty", "zeros") and chain):
+        return None
+    sh = t.args[0]
+    if not (isinstance(sh, Tup) and sh.items and sh.items[-1] == Const(2)):
+        return "buffer whose last axis is not 2"
+    chain.reverse()
+    init_ok = {0: False, 1: False}
+    upd = {0: None, 1: None}
+    for idx, val in chain:
+        if isinstance(idx, Tup) and len(idx.items) == 2 and idx.items[0] == Const(Ellipsis) and idx.items[1] in (Const(0), Const(1)):
+            c = idx.items[1].value
+            init_ok[c] = _unwrap(val) == init_of(c) and upd[c] is None
+            continue
+        if isinstance(idx, App) and idx.fn == "view_index" and len(idx.args) == 2 and isinstance(idx.args[0], Tup) and len(idx.args[0].items) == 2 \
+                and idx.args[0].items[0] == Const(Ellipsis) and idx.args[0].items[1] in (Const(0), Const(1)):
+            c = idx.args[0].items[1].value
+            if upd[c] is not None:
+                return None
+            upd[c] = (idx.args[1], val)
+            continue
+        return None
+    return ((init_ok[0], upd[0]), (init_ok[1], upd[1]))
 
 
 class FakeScores:
